@@ -207,6 +207,14 @@ def run(run):
                               f"`{site}` escapes {pc.name}.{m.name}: the server's catch-all turns it "
                               "into a shutdown instead of a result code",
                       witness=chain[:400])
+            full = E.esc(m, pc)
+            for exc in ("HSM2DongleCommError", "HSM2DongleTimeoutError"):
+                w2 = full.get(exc)
+                run.check("R4", w2 is None, f"{pc.name}.{m.name}: {exc} cannot escape",
+                          key=f"{pc.name}.{m.name}|{exc}|escapes", where=m.loc(),
+                          message=f"a link failure / time-out ({exc}) can escape {pc.name}.{m.name}: the client "
+                                  "gets an empty reply instead of the device-error code and the manager stops",
+                          witness=w2.render()[:400] if w2 else None)
             # conversion into protocol error inside the method
             for n in A.own_nodes(m):
                 if isinstance(n, ast.ExceptHandler) and "HSM2DongleErrorResult" in E.class_names_of(n.type, m, pc):
